@@ -379,3 +379,14 @@ def g_sexpect_state(rng, level=0, n_random=150):
         a = _rand_state(rng, N)
         a.r = 0
         yield {'self': a, 'obs': _rand_state(rng, N)}
+
+
+@gen(U + 'pauli_diagonalize1')
+def g_diag1(rng, level=0, n_random=100):
+    for N in (1, 2, 3):
+        for a in all_strings(N):
+            for i0 in range(N):
+                yield {'g1': a, 'i0': i0}
+    for _ in range(n_random):
+        N = int(rng.integers(1, 6))
+        yield {'g1': bits(rng, 2 * N), 'i0': int(rng.integers(0, N))}
